@@ -11,21 +11,24 @@ from ..common import Report, parse_args
 CFG = "INIT Init\nNEXT Next\nINVARIANT Holds\nCHECK_DEADLOCK FALSE\n"
 
 
-def run_family(prop: str, which: str, argv: List[str], doms: str, nontrivial, rule: str, level_text: str, hook: Optional[str] = None) -> int:
+def run_family(prop: str, which: str, argv: List[str], doms: str, nontrivial, rule: str, level_text: str, hook: Optional[str] = None, extra=None) -> int:
     args = parse_args(prop, argv)
     rep = Report(prop, args.tier, args.seed, "model_checking")
     if args.replay:
         with open(args.replay) as f:
             rp = json.load(f)
-        inputs = [rp["input"]["id"]]
+        inputs = [rp["input"]["id"]] if rp["input"]["id"].get("dom") != "E" else []
         rep.replay_only = args.replay
     else:
         inputs = rb.domain_inputs(args.tier, args.seed, doms)
     d = rb.workdir(prop)
     try:
-        res = rb.record_domain(inputs, d, jobs=args.jobs, shards=args.jobs, stages=True, hook=hook)
-        verdicts = evaluate(res, which, args.jobs)
-        account(rep, res, verdicts, nontrivial, rule, inputs)
+        if inputs:
+            res = rb.record_domain(inputs, d, jobs=args.jobs, shards=args.jobs, stages=True, hook=hook)
+            verdicts = evaluate(res, which, args.jobs)
+            account(rep, res, verdicts, nontrivial, rule, inputs)
+        if extra is not None:
+            extra(rep, args, d)
         if prop in ("C03", "C05") and not args.replay:
             from . import designfam
 
